@@ -275,4 +275,64 @@ def retrieveC2 (enoentIsMiss dmg : Bool) (s1 s2 : CFS) (outs : List Path) : Res 
       | none => if enoentIsMiss then .miss else .hit []
       | some t => if t.closed then .hit t.es else if dmg then .miss else .hit t.es
 
+/-! ## Restoring a tarball into an output directory that is not empty
+
+`retrieveCompressed` handles one archive entry at a time: `ensureRetrieveReady` (create the parent directory when the
+name has a `/`, unlink whatever is at the destination), then `MkdirAll` / `Symlink` / `OpenFile(O_WRONLY|O_CREATE)`.
+The open does NOT truncate: without the unlink a longer stale file keeps its tail (and its mode). -/
+
+/-- The output directory of the target, paths relative to it. -/
+abbrev Dest := Path → Option Item
+
+def Dest.clearTo (d : Dest) (q : Path) : Bool :=
+  (List.range (q.length + 1)).all fun k => d (q.take k) = none || d (q.take k) = some .dir
+
+/-- `os.MkdirAll`: fails on a non-directory in the way. -/
+def Dest.mkdirAll (d : Dest) (p : Path) : Option Dest :=
+  if d.clearTo p then some (fun q => if q.isPrefixOf p then some .dir else d q) else none
+
+def Dest.rmSub (d : Dest) (p : Path) : Dest := fun q => if p.isPrefixOf q then none else d q
+
+/-- the parent exists as a directory (the output directory itself always does) -/
+def Dest.parentOK (d : Dest) (p : Path) : Bool := p.length ≤ 1 || d p.dropLast = some .dir
+
+/-- `ensureRetrieveReady(out)`. -/
+def Dest.ready (d : Dest) (p : Path) : Option Dest :=
+  (if p.length ≥ 2 then d.mkdirAll p.dropLast else some d).map (·.rmSub p)
+
+/-- One archive entry.  `prep`: regenerated fact "ensureRetrieveReady is called for every header, unconditionally, and
+    unlinks the destination unconditionally"; `trunc`: regenerated fact "the open has O_TRUNC".  `none` = an error. -/
+def restoreEntry (prep trunc : Bool) (d : Dest) (e : Path × Item) : Option Dest :=
+  (if prep then d.ready e.1 else some d).bind fun d =>
+    match e.2 with
+    | .dir => d.mkdirAll e.1
+    | .link t =>
+      if d e.1 = none ∧ d.parentOK e.1 then some (fun q => if q = e.1 then some (.link t) else d q) else none
+    | .file c x =>
+      if !d.parentOK e.1 then none
+      else match d e.1 with
+        | none => some (fun q => if q = e.1 then some (.file c x) else d q)
+        | some (.file c' x') =>
+          some (fun q => if q = e.1 then some (.file (if trunc then c else c ++ c'.drop c.length) x') else d q)
+        | some _ => none
+
+def restoreAll (prep trunc : Bool) : Dest → Tree → Option Dest
+  | d, [] => some d
+  | d, e :: es => (restoreEntry prep trunc d e).bind fun d' => restoreAll prep trunc d' es
+
+/-- What is found at and below the requested outputs afterwards. -/
+def Dest.listing (d : Dest) (cands outs : List Path) : Tree :=
+  cands.filterMap fun p => if outs.any (·.isPrefixOf p) then (d p).map (p, ·) else none
+
+/-- `Retrieve` of a compressed cache into an output directory holding `d0`. -/
+def retrieveCInto (prep trunc dmg : Bool) (fs : CFS) (d0 : Dest) (cands outs : List Path) : Res :=
+  match fs .final with
+  | none => .miss
+  | some t =>
+    if outs = [] then .hit []
+    else if !t.closed then (if dmg then .miss else .hit (d0.listing cands outs))
+    else match restoreAll prep trunc d0 t.es with
+      | none => .miss
+      | some d => .hit (d.listing cands outs)
+
 end PlzVerif.DirCache
